@@ -571,6 +571,9 @@ class FixedWidthBinning(BinningBase):
             return None
         else:
             min_, max_ = np.min(values), np.max(values)
+            if np.isinf(min_) or np.isinf(max_):
+                # Refuse before any bin is added for the other end of the range
+                raise ValueError("Cannot create bins for infinite values.")
             result = self._force_bin_existence_single(min_)
             result2 = self._force_bin_existence_single(
                 max_, includes_right_edge=includes_right_edge
